@@ -384,6 +384,26 @@ func conclude(ctx *core.Ctx, pl *plan, pool *Pool, results map[string]*Result, r
 	}
 	ctx.Ev.AddReplayed(replayed)
 	ctx.Ev.Set("probe_answers_equal_to_model", agree)
+	// one sample of each binding
+	ids := make([]string, 0, len(results))
+	for id := range results {
+		ids = append(ids, id)
+	}
+	sort.Strings(ids)
+	sampled := map[string]bool{}
+	for _, id := range ids {
+		info, res := pl.info[id], results[id]
+		switch {
+		case info.req.Wiring != nil && !sampled["w"] && info.req.Wiring.Work >= 3 && len(res.Recs) > 0 && len(res.Recs[0].Proj) > 0:
+			sampled["w"] = true
+			w := info.req.Wiring
+			ctx.Ev.Sample(map[string]any{"kind": "model wiring materialised and walked", "walker": w.Walker, "kind_of_object": w.Kind, "slot_a": w.A, "slot_b": w.B,
+				"rendering": info.req.Variant, "model_answer": w.Out, "model_fetches": w.Work, "code_answer": res.Recs[0].Proj, "code_fetches": res.Recs[0].Gets, "calls_logged": len(res.Recs)})
+		case info.req.Pipe != nil && !sampled["p"] && info.req.Pipe.Stuck && len(res.Recs) > 0:
+			sampled["p"] = true
+			ctx.Ev.Sample(map[string]any{"kind": "Gen_Pipe row realised", "row": info.req.Pipe, "record": slimOf(&res.Recs[0]), "detail": res.Recs[0].Detail})
+		}
+	}
 
 	// ---- confirm and report ----
 	type suspect struct {
